@@ -367,6 +367,17 @@ Proof.
   destruct (F c ws) as [o1|e]; cbn [bind]; [|reflexivity]. rewrite <- IH. reflexivity.
 Qed.
 
+(* the sub-group table consulted by an entry: the segment's one, except for a group (empty) *)
+Lemma subgroups_for_sub seg f k others :
+  lookup k (subgroups_for seg f) = Some others -> lookup k (sections_subgroups seg) = Some others.
+Proof. unfold subgroups_for. destruct (fi_kind f); try (intro H; exact H); discriminate. Qed.
+
+Lemma subgroups_for_leaf seg f : fi_kind f <> KGroup -> subgroups_for seg f = sections_subgroups seg.
+Proof. unfold subgroups_for. destruct (fi_kind f); try reflexivity. intro H. elim H. reflexivity. Qed.
+
+Lemma subgroups_for_group seg f : fi_kind f = KGroup -> subgroups_for seg f = [].
+Proof. unfold subgroups_for. intros ->. reflexivity. Qed.
+
 (* one unfolding of the nested fixpoint *)
 Lemma emit_sff_S rt sty cfg seg sections f n stack section base ws :
   emit_sff rt sty cfg seg sections f (S n) stack section base ws =
@@ -375,7 +386,7 @@ Lemma emit_sff_S rt sty cfg seg sections f n stack section base ws :
     (fun k ws =>
        do o1 <- emit_file_of rt sty cfg seg sections f base k ws;
        do o2 <- (if reference_partial cfg then Ok ([], snd o1) else
-                 match lookup k (sections_subgroups seg) with
+                 match lookup k (subgroups_for seg f) with
                  | Some others =>
                      fold_out (fun other ws =>
                                  emit_sff rt sty cfg seg sections f n (section :: stack) other base ws)
@@ -428,7 +439,7 @@ Proof.
     apply bind_ok in Hk. destruct Hk as [ob [Eb Hk]]. inversion Hk; subst; cbn [fst].
     apply Forall_app. split; [eapply Hfile; exact Ea|].
     destruct (reference_partial cfg); [inversion Eb; constructor|].
-    destruct (lookup k (sections_subgroups seg)) as [others|]; [|inversion Eb; constructor].
+    destruct (lookup k (subgroups_for seg f)) as [others|]; [|inversion Eb; constructor].
     eapply fold_out_Forall; [|exact Eb]. intros other ws2 o2 _ Ho. eapply IHn. exact Ho.
 Qed.
 
